@@ -1,6 +1,5 @@
 (* Lemmas about model/Pgp.v (strip_pgp_signature), property C19. *)
 From V.model Require Import Base Pgp.
-Set Default Timeout 60.
 
 (* ------------------------------------------------------------------ string equality *)
 
@@ -590,4 +589,296 @@ Proof.
   destruct (read_payload_res l1 []) as [([pl l2] & ->)| ->]; cbn [bind]; [|tauto].
   destruct (read_signature_res l2 []) as [([sg l3] & ->)| ->]; cbn [bind]; [|tauto].
   destruct l3; [left; eauto|tauto].
+Qed.
+
+(* ------------------------------------------------------------------ cuts at every character *)
+
+Lemma firstn_unlines (ls : list str) (n : nat) :
+  n < length (unlines ls) ->
+  exists k p q, nth_error ls k = Some (p ++ q) /\
+    firstn n (unlines ls) = unlines (firstn k ls) ++ p /\
+    n = length (unlines (firstn k ls)) + length p.
+Proof.
+  revert n. induction ls as [|l ls IH]; intros n Hn.
+  - cbn in Hn. lia.
+  - rewrite unlines_cons in *. rewrite app_length in Hn. cbn [length] in Hn.
+    destruct (Nat.le_gt_cases n (length l)) as [Hle|Hgt].
+    + exists 0, (firstn n l), (skipn n l). split; [cbn [nth_error]; now rewrite firstn_skipn|].
+      cbn [firstn]. rewrite unlines_nil. cbn [app length]. split.
+      * apply firstn_app_le; exact Hle.
+      * rewrite firstn_length. lia.
+    + destruct (IH (n - length l - 1)) as (k & p & q & Hnth & Hf & Hlen); [lia|].
+      exists (S k), p, q. split; [exact Hnth|]. cbn [firstn]. rewrite unlines_cons.
+      rewrite firstn_app_ge by lia. replace (n - length l) with (S (n - length l - 1)) by lia.
+      cbn [firstn]. rewrite Hf. rewrite <- app_assoc. cbn [app]. split; [reflexivity|].
+      rewrite app_length. cbn [length]. lia.
+Qed.
+
+Lemma Some_inj {A} (x y : A) : Some x = Some y -> x = y.
+Proof. congruence. Qed.
+
+Lemma firstn_S_nth {A} (l : list A) (k : nat) (x : A) :
+  nth_error l k = Some x -> firstn (S k) l = firstn k l ++ [x].
+Proof.
+  revert k. induction l as [|y l IH]; intros [|k] H; cbn [nth_error] in H; try discriminate.
+  - injection H as ->. reflexivity.
+  - cbn [firstn app]. f_equal. now apply IH.
+Qed.
+
+(* a cut after k lines followed by lines that are inert in the region the cut falls in *)
+Lemma strip_lines_cut_tail (input : str) (hs ps ss : list str) (k : nat) (tail : list str) :
+  Forall nonempty hs -> Forall (fun l => l <> BEGIN_SIG) ps -> Forall (fun l => l <> END_SIG) ss ->
+  0 < k -> k < length (wrap_lines hs ps ss) ->
+  (k <= 1 + length hs -> Forall nonempty tail) ->
+  (1 + length hs < k -> k <= 2 + length hs + length ps -> Forall (fun l => l <> BEGIN_SIG) tail) ->
+  (2 + length hs + length ps < k -> Forall (fun l => l <> END_SIG) tail) ->
+  strip_lines input (firstn k (wrap_lines hs ps ss) ++ tail) = cut_result k hs ps.
+Proof.
+  intros Hh Hp Hs Hk0 Hk T1 T2 T3. rewrite wrap_lines_length in Hk.
+  destruct k as [|k1]; [lia|]. unfold wrap_lines.
+  cbn [firstn app strip_lines]. rewrite str_eqb_refl. cbn [negb].
+  unfold cut_result.
+  destruct (Nat.leb_spec (S k1) (1 + length hs)) as [L1|L1].
+  - rewrite firstn_app_le by lia.
+    rewrite read_metadata_trunc; [reflexivity|].
+    apply Forall_app. split; [apply Forall_firstn_; exact Hh|apply T1; lia].
+  - rewrite firstn_app_ge by lia.
+    destruct (k1 - length hs) as [|k2] eqn:E2; [lia|]. cbn [firstn].
+    rewrite <- app_assoc. cbn [app].
+    rewrite read_metadata_app by exact Hh. cbn [bind].
+    destruct (Nat.leb_spec (S k1) (2 + length hs + length ps)) as [L2|L2].
+    + rewrite firstn_app_le by lia.
+      rewrite read_payload_trunc; [reflexivity|].
+      apply Forall_app. split; [apply Forall_firstn_; exact Hp|apply T2; lia].
+    + rewrite firstn_app_ge by lia.
+      destruct (k2 - length ps) as [|k3] eqn:E3; [lia|]. cbn [firstn].
+      rewrite <- app_assoc. cbn [app].
+      rewrite read_payload_app by exact Hp. cbn [bind].
+      rewrite firstn_app_le by lia.
+      rewrite read_signature_trunc; [reflexivity|].
+      apply Forall_app. split; [apply Forall_firstn_; exact Hs|apply T3; lia].
+Qed.
+
+Lemma nth_wrap_payload_region (hs ps ss : list str) (k : nat) (l : str) :
+  1 + length hs < k -> k <= 2 + length hs + length ps ->
+  nth_error (wrap_lines hs ps ss) k = Some l -> In l ps \/ l = BEGIN_SIG.
+Proof.
+  intros H1 H2. unfold wrap_lines. destruct k as [|k1]; [lia|]. cbn [nth_error].
+  rewrite nth_error_app2 by lia.
+  destruct (k1 - length hs) as [|k2] eqn:E2; [lia|]. cbn [nth_error].
+  destruct (Nat.lt_ge_cases k2 (length ps)) as [Hlt|Hge].
+  - rewrite nth_error_app1 by exact Hlt. intros H. left. eapply nth_error_In; exact H.
+  - rewrite nth_error_app2 by exact Hge. replace (k2 - length ps) with 0 by lia.
+    cbn [nth_error]. intros H. injection H as <-. now right.
+Qed.
+
+Lemma nth_wrap_sig_region (hs ps ss : list str) (k : nat) (l : str) :
+  2 + length hs + length ps < k ->
+  nth_error (wrap_lines hs ps ss) k = Some l -> In l ss \/ l = END_SIG.
+Proof.
+  intros H1. unfold wrap_lines. destruct k as [|k1]; [lia|]. cbn [nth_error].
+  rewrite nth_error_app2 by lia.
+  destruct (k1 - length hs) as [|k2] eqn:E2; [lia|]. cbn [nth_error].
+  rewrite nth_error_app2 by lia.
+  destruct (k2 - length ps) as [|k3] eqn:E3; [lia|]. cbn [nth_error].
+  destruct (Nat.lt_ge_cases k3 (length ss)) as [Hlt|Hge].
+  - rewrite nth_error_app1 by exact Hlt. intros H. left. eapply nth_error_In; exact H.
+  - rewrite nth_error_app2 by exact Hge.
+    destruct (k3 - length ss) as [|k4]; cbn [nth_error].
+    + intros H. injection H as <-. now right.
+    + destruct k4; discriminate.
+Qed.
+
+Lemma is_prefix_app (p q : str) : is_prefix p (p ++ q) = true.
+Proof. induction p as [|c p IH]; cbn [is_prefix app]; [reflexivity|]. now rewrite N.eqb_refl, IH. Qed.
+
+Lemma proper_prefix_neq (p q m : str) : p ++ q = m -> q <> [] -> p <> m.
+Proof.
+  intros E Hq ->. apply Hq. rewrite <- (app_nil_r m) in E at 2. now apply app_inv_head in E.
+Qed.
+
+Lemma no_cr_end_wrap_lines (hs ps ss : list str) :
+  Forall no_cr_end (hs ++ ps ++ ss) -> Forall no_cr_end (wrap_lines hs ps ss).
+Proof.
+  intros H. apply Forall_app in H as [Hh H]. apply Forall_app in H as [Hp Hs].
+  assert (M : forall m : str, last m 0%N <> CR -> no_cr_end m) by (intros m Hm; exact Hm).
+  unfold wrap_lines. constructor; [apply M; vm_compute; discriminate|].
+  apply Forall_app. split; [exact Hh|]. constructor; [apply M; vm_compute; discriminate|].
+  apply Forall_app. split; [exact Hp|]. constructor; [apply M; vm_compute; discriminate|].
+  apply Forall_app. split; [exact Hs|]. constructor; [apply M; vm_compute; discriminate|constructor].
+Qed.
+
+Lemma strip_cutc (hs ps ss : list str) :
+  pgp_dom hs ps ss -> Forall (fun l => is_prefix END_SIG l = false) ss ->
+  forall k p q, nth_error (wrap_lines hs ps ss) k = Some (p ++ q) ->
+  (p <> [] -> q = [] -> S k < length (wrap_lines hs ps ss)) ->
+  strip_pgp_signature (cut_lines k hs ps ss ++ p) = cutc_result (cut_lines k hs ps ss ++ p) k p q hs ps.
+Proof.
+  intros Hdom Hpre k p q Hnth Hlast.
+  pose proof (pgp_dom_dom_cr _ _ _ Hdom) as Hc.
+  destruct Hdom as (Hlf & Hcr & Hh & Hp & Hs).
+  assert (Hk : k < length (wrap_lines hs ps ss)) by (apply nth_error_Some; congruence).
+  destruct p as [|c p'].
+  - rewrite app_nil_r. cbn [cutc_result]. apply strip_cut_cr; assumption.
+  - pose proof (no_lf_wrap_lines _ _ _ Hlf) as HL. pose proof (no_cr_end_wrap_lines _ _ _ Hcr) as HC.
+    assert (Hpl : no_lf (c :: p')).
+    { rewrite Forall_forall in HL. eapply no_lf_app_l, HL, nth_error_In, Hnth. }
+    assert (Hlines : lines (cut_lines k hs ps ss ++ c :: p') = firstn k (wrap_lines hs ps ss) ++ [c :: p']).
+    { unfold cut_lines. rewrite lines_unlines_app by (apply Forall_firstn_; exact HL).
+      rewrite Forall_chomp_cr_id by (apply Forall_firstn_; exact HC).
+      rewrite lines_partial by (assumption || discriminate). reflexivity. }
+    assert (Hh' : Forall nonempty hs) by exact Hh.
+    assert (Hp' : Forall (fun l => l <> BEGIN_SIG) ps).
+    { rewrite Forall_forall in *. intros l Hl. apply no_dash_not_BEGIN_SIG. auto. }
+    unfold strip_pgp_signature. rewrite Hlines. cbn [cutc_result].
+    destruct q as [|d q'].
+    + rewrite app_nil_r in Hnth. rewrite <- (firstn_S_nth _ _ _ Hnth).
+      apply strip_lines_cut; try assumption; [lia|]. apply Hlast; [discriminate|reflexivity].
+    + destruct k as [|k'].
+      * cbn [firstn app]. unfold wrap_lines in Hnth. cbn [nth_error] in Hnth. apply Some_inj in Hnth.
+        cbn [strip_lines]. rewrite str_eqb_neq; [reflexivity|].
+        eapply proper_prefix_neq; [symmetry; exact Hnth|discriminate].
+      * apply strip_lines_cut_tail; try assumption; try lia.
+        -- intros _. constructor; [discriminate|constructor].
+        -- intros R1 R2. constructor; [|constructor].
+           destruct (nth_wrap_payload_region _ _ _ _ _ R1 R2 Hnth) as [Hin| E].
+           ++ rewrite Forall_forall in Hp. specialize (Hp _ Hin). intros E. apply Hp.
+              cbn [app hd]. injection E as -> _. reflexivity.
+           ++ eapply proper_prefix_neq; [exact E|discriminate].
+        -- intros R. constructor; [|constructor].
+           destruct (nth_wrap_sig_region _ _ _ _ _ R Hnth) as [Hin| E].
+           ++ rewrite Forall_forall in Hpre. specialize (Hpre _ Hin). intros E.
+              rewrite <- E, is_prefix_app in Hpre. discriminate.
+           ++ eapply proper_prefix_neq; [exact E|discriminate].
+Qed.
+
+Lemma cut_result_S (k : nat) (hs ps : list str) :
+  cut_result (S k) hs ps = Err E_MissingPayload \/ cut_result (S k) hs ps = Err E_MissingPgpSignature \/
+  cut_result (S k) hs ps = Err E_TruncatedPgpSignature.
+Proof.
+  unfold cut_result. destruct (S k <=? 1 + length hs); [tauto|].
+  destruct (S k <=? 2 + length hs + length ps); tauto.
+Qed.
+
+Lemma strip_cut_chars (hs ps ss : list str) (n : nat) :
+  pgp_dom hs ps ss -> Forall (fun l => is_prefix END_SIG l = false) ss ->
+  n + 1 < length (wrap hs ps ss) ->
+  exists k p q, nth_error (wrap_lines hs ps ss) k = Some (p ++ q) /\
+    cut_chars n hs ps ss = cut_lines k hs ps ss ++ p /\
+    strip_pgp_signature (cut_chars n hs ps ss) = cutc_result (cut_chars n hs ps ss) k p q hs ps.
+Proof.
+  intros Hdom Hpre Hn. unfold cut_chars, wrap in *.
+  destruct (firstn_unlines (wrap_lines hs ps ss) n) as (k & p & q & Hnth & Hf & Hlen); [lia|].
+  exists k, p, q. split; [exact Hnth|]. split; [exact Hf|]. rewrite Hf.
+  apply strip_cutc; try assumption.
+  intros Hp ->. rewrite app_nil_r in Hnth.
+  assert (Hk : k < length (wrap_lines hs ps ss)) by (apply nth_error_Some; congruence).
+  destruct (Nat.lt_ge_cases (S k) (length (wrap_lines hs ps ss))) as [Hlt|Hge]; [exact Hlt|exfalso].
+  pose proof (firstn_S_nth _ _ _ Hnth) as E. rewrite firstn_all2 in E by lia.
+  rewrite E, unlines_app, app_length in Hn at 1. rewrite unlines_cons, unlines_nil, app_length in Hn.
+  cbn [length] in Hn. lia.
+Qed.
+
+(* readable corollary: nothing cut short is ever presented as a signed message; a pass-through
+   happens only while the cut is still inside the first line *)
+Lemma strip_cut_chars_class (hs ps ss : list str) (n : nat) :
+  pgp_dom hs ps ss -> Forall (fun l => is_prefix END_SIG l = false) ss ->
+  n + 1 < length (wrap hs ps ss) ->
+  (strip_pgp_signature (cut_chars n hs ps ss) = Ok (cut_chars n hs ps ss, None) /\ n < length BEGIN_SIGNED) \/
+  strip_pgp_signature (cut_chars n hs ps ss) = Err E_MissingPayload \/
+  strip_pgp_signature (cut_chars n hs ps ss) = Err E_MissingPgpSignature \/
+  strip_pgp_signature (cut_chars n hs ps ss) = Err E_TruncatedPgpSignature.
+Proof.
+  intros Hdom Hpre Hn.
+  destruct (strip_cut_chars hs ps ss n Hdom Hpre Hn) as (k & p & q & Hnth & Hx & ->).
+  assert (Hlen : length (cut_chars n hs ps ss) = n).
+  { unfold cut_chars. apply firstn_length_le. lia. }
+  unfold cutc_result. destruct p as [|c p'].
+  - destruct k as [|k']; [|right; apply cut_result_S].
+    left. rewrite Hx in *. unfold cut_lines in *. cbn [firstn] in *. rewrite unlines_nil in *.
+    cbn [app length] in *. split; [reflexivity|]. subst n. cbn. lia.
+  - destruct q as [|d q']; [right; apply cut_result_S|].
+    destruct k as [|k']; [|right; apply cut_result_S].
+    left. split; [reflexivity|]. unfold wrap_lines in Hnth. cbn [nth_error] in Hnth.
+    apply Some_inj in Hnth. rewrite Hx in Hlen. unfold cut_lines in Hlen. cbn [firstn] in Hlen.
+    rewrite unlines_nil in Hlen. cbn [app] in Hlen.
+    apply (f_equal (@length _)) in Hnth. rewrite app_length in Hnth. cbn [length] in Hnth, Hlen. lia.
+Qed.
+
+(* the message without its final "\n" is still complete *)
+Lemma strip_wrap_no_final_newline (hs ps ss : list str) (body : str) :
+  pgp_dom hs ps ss -> wrap hs ps ss = body ++ [LF] ->
+  strip_pgp_signature body = Ok (unlines ps, Some (concat ss)).
+Proof.
+  intros Hdom Hb. destruct Hdom as (Hlf & Hcr & Hh & Hp & Hs).
+  set (init := BEGIN_SIGNED :: hs ++ [] :: ps ++ BEGIN_SIG :: ss).
+  assert (Ew : wrap_lines hs ps ss = init ++ [END_SIG]).
+  { unfold wrap_lines, init. cbn [app]. f_equal. rewrite <- app_assoc. cbn [app]. f_equal. f_equal.
+    rewrite <- app_assoc. reflexivity. }
+  assert (Eb : body = unlines init ++ END_SIG).
+  { unfold wrap in Hb. rewrite Ew, unlines_app, unlines_cons, unlines_nil in Hb.
+    rewrite app_assoc in Hb.
+    apply app_inj_tail in Hb as [Hb _]. now symmetry. }
+  pose proof (no_lf_wrap_lines _ _ _ Hlf) as HL. pose proof (no_cr_end_wrap_lines _ _ _ Hcr) as HC.
+  rewrite Ew in HL, HC. apply Forall_app in HL as [HL _]. apply Forall_app in HC as [HC _].
+  unfold strip_pgp_signature. rewrite Eb, lines_unlines_app by exact HL.
+  rewrite lines_partial by (exact no_lf_END_SIG || discriminate).
+  rewrite Forall_chomp_cr_id by exact HC. rewrite <- Ew, <- (app_nil_r (wrap_lines hs ps ss)).
+  rewrite strip_lines_wrap.
+  - reflexivity.
+  - exact Hh.
+  - rewrite Forall_forall in *. intros l Hl. apply no_dash_not_BEGIN_SIG. auto.
+  - exact Hs.
+Qed.
+
+(* ------------------------------------------------------------------ the domain is decidable *)
+Lemma pgp_domb_ok (hs ps ss : list str) : pgp_domb hs ps ss = true -> pgp_dom hs ps ss.
+Proof.
+  unfold pgp_domb, pgp_dom. intros H.
+  apply andb_true_iff in H as [H Hs]. apply andb_true_iff in H as [H Hp].
+  apply andb_true_iff in H as [Hl Hh].
+  rewrite forallb_forall in Hl, Hh, Hp, Hs. rewrite !Forall_forall.
+  repeat split.
+  - intros l Hin. specialize (Hl l Hin). unfold line_okb in Hl. apply andb_true_iff in Hl as [Hl _].
+    now apply no_lf_b.
+  - intros l Hin. specialize (Hl l Hin). unfold line_okb in Hl. apply andb_true_iff in Hl as [_ Hl].
+    unfold no_cr_end. intros E. rewrite E in Hl. discriminate.
+  - intros l Hin. specialize (Hh l Hin). intros ->. discriminate.
+  - intros l Hin. specialize (Hp l Hin). unfold no_dash_start. intros E. rewrite E in Hp. discriminate.
+  - intros l Hin. specialize (Hs l Hin). intros ->. rewrite str_eqb_refl in Hs. discriminate.
+Qed.
+
+(* ------------------------------------------------------------------ the cut theorem, regions spelt out *)
+Lemma strip_cut_regions (hs ps ss : list str) :
+  pgp_dom hs ps ss ->
+  length (wrap_lines hs ps ss) = 4 + length hs + length ps + length ss /\
+  forall k, k < 4 + length hs + length ps + length ss ->
+    (k = 0 -> strip_pgp_signature (cut_lines k hs ps ss) = Ok ([], None)) /\
+    (1 <= k <= 1 + length hs -> strip_pgp_signature (cut_lines k hs ps ss) = Err E_MissingPayload) /\
+    (2 + length hs <= k <= 2 + length hs + length ps ->
+       strip_pgp_signature (cut_lines k hs ps ss) = Err E_MissingPgpSignature) /\
+    (3 + length hs + length ps <= k ->
+       strip_pgp_signature (cut_lines k hs ps ss) = Err E_TruncatedPgpSignature).
+Proof.
+  intros Hdom. split; [apply wrap_lines_length|]. intros k Hk.
+  rewrite (strip_cut hs ps ss k Hdom) by (rewrite wrap_lines_length; exact Hk).
+  unfold cut_result. repeat split.
+  - intros ->. reflexivity.
+  - intros [H1 H2]. destruct k as [|k']; [lia|].
+    destruct (Nat.leb_spec (S k') (1 + length hs)); [reflexivity|lia].
+  - intros [H1 H2]. destruct k as [|k']; [lia|].
+    destruct (Nat.leb_spec (S k') (1 + length hs)); [lia|].
+    destruct (Nat.leb_spec (S k') (2 + length hs + length ps)); [reflexivity|lia].
+  - intros H1. destruct k as [|k']; [lia|].
+    destruct (Nat.leb_spec (S k') (1 + length hs)); [lia|].
+    destruct (Nat.leb_spec (S k') (2 + length hs + length ps)); [lia|reflexivity].
+Qed.
+
+Lemma strip_cut_never_signed (hs ps ss : list str) (k : nat) :
+  pgp_dom hs ps ss -> k < length (wrap_lines hs ps ss) ->
+  forall p sg, strip_pgp_signature (cut_lines k hs ps ss) <> Ok (p, Some sg).
+Proof.
+  intros Hdom Hk p sg. rewrite (strip_cut hs ps ss k Hdom Hk).
+  destruct k as [|k']; [discriminate|].
+  destruct (cut_result_S k' hs ps) as [-> | [-> | ->]]; discriminate.
 Qed.
